@@ -441,3 +441,151 @@ func init() {
 		c.Check(len(scopes) == 1, "sibling-agreement", "html.inBodyIM: every `body element in scope` test uses the same scope", fn.Pos(), fmt.Sprintf("%d tests", n), fmt.Sprintf("scopes used: %v", scopes))
 	})
 }
+
+// ---------------------------------------------------------------------------
+// Supplementary rules after the second round of seeded changes (seeded/<id>-2).
+
+func init() {
+	// C06-2 (IsZero ignoring Exclusive): whether a priority block is written is decided by IsZero; a
+	// priority value that differs from the zero value in ANY field must be written, or it cannot read back.
+	ExtraClause("C06", "Also: PriorityParam.IsZero depends on every field of PriorityParam (it decides whether WriteHeaders emits the priority block).")
+	RegisterExtra("C06", func(c *Ctx) {
+		fn := c.MustFn("(http2.PriorityParam).IsZero")
+		tn, _ := c.P.Object("http2.PriorityParam").(*types.TypeName)
+		if fn == nil || tn == nil {
+			return
+		}
+		st := tn.Type().Underlying().(*types.Struct)
+		read := map[string]bool{}
+		whole := false
+		for _, b := range fn.Blocks {
+			for _, in := range b.Instrs {
+				switch x := in.(type) {
+				case *ssa.BinOp:
+					// whole-struct comparison p == PriorityParam{}
+					if types.Identical(x.X.Type(), tn.Type()) && (x.Op == token.EQL || x.Op == token.NEQ) {
+						whole = true
+					}
+				case *ssa.Field:
+					if types.Identical(x.X.Type(), tn.Type()) {
+						read[st.Field(x.Field).Name()] = true
+					}
+				case *ssa.FieldAddr:
+					if f := FieldOfAddr(x); f != nil {
+						read[f.Name()] = true
+					}
+				}
+			}
+		}
+		var missing []string
+		for i := 0; i < st.NumFields(); i++ {
+			if !whole && !read[st.Field(i).Name()] {
+				missing = append(missing, st.Field(i).Name())
+			}
+		}
+		c.Check(len(missing) == 0, "reads-every-field", "(http2.PriorityParam).IsZero: the result depends on every field of PriorityParam", fn.Pos(), "", "fields not examined: "+strings.Join(missing, ", ")+" (a priority that is non-zero only there is written without its priority block)")
+	})
+
+	// C12-2 (stage swap split into sequential statements): in writeQueue.shift the emptied slice that becomes the
+	// new nextQueue must be the OLD currQueue: its load happens before currQueue is overwritten.
+	ExtraClause("C12", "Also: in writeQueue.shift the slice stored into nextQueue is loaded from currQueue before currQueue is overwritten (no aliasing of the two stages).")
+	RegisterExtra("C12", func(c *Ctx) {
+		fn := c.MustFn("(*http2.writeQueue).shift")
+		if fn == nil {
+			return
+		}
+		nq := Stores("http2.writeQueue.nextQueue").F(c.P, fn)
+		cq := Stores("http2.writeQueue.currQueue").F(c.P, fn)
+		if len(nq) == 0 || len(cq) == 0 {
+			c.Undecided("swap-order", "(*http2.writeQueue).shift: stage swap", "stores to currQueue/nextQueue not found")
+			return
+		}
+		ok, why := true, ""
+		for _, s := range nq {
+			// the value stored derives from a load of currQueue
+			var load ssa.Instruction
+			Backward(s.(*ssa.Store).Val, func(v ssa.Value) bool {
+				if u, isU := v.(*ssa.UnOp); isU && u.Op == token.MUL {
+					if f := FieldOfAddr(u.X); f != nil && f.Name() == "currQueue" {
+						load = u
+						return false
+					}
+				}
+				return true
+			})
+			if load == nil {
+				ok, why = false, "the new nextQueue is not derived from currQueue"
+				continue
+			}
+			for _, st := range cq {
+				if st.Block() == load.Block() {
+					li, si := -1, -1
+					for i, in := range st.Block().Instrs {
+						if in == load {
+							li = i
+						}
+						if in == st {
+							si = i
+						}
+					}
+					if si < li {
+						ok, why = false, "currQueue is overwritten before it is read for the new nextQueue: the two stages alias the same slice"
+					}
+				} else if st.Block().Dominates(load.Block()) {
+					ok, why = false, "currQueue is overwritten before it is read for the new nextQueue: the two stages alias the same slice"
+				}
+			}
+		}
+		c.Check(ok, "swap-order", "(*http2.writeQueue).shift: nextQueue receives the old currQueue (read before currQueue is overwritten)", fn.Pos(), "", why)
+	})
+
+	// C17-2 (default limit re-applied on every SETTINGS frame): the fallback to defaultMaxConcurrentStreams
+	// happens only for the first SETTINGS frame of the connection.
+	ExtraClause("C17", "Also: maxConcurrentStreams is reset to the default only under !cc.seenSettings (first SETTINGS frame) and only when the frame carried no MAX_CONCURRENT_STREAMS.")
+	RegisterExtra("C17", func(c *Ctx) {
+		fn := "(*http2.clientConnReadLoop).processSettingsNoWrite"
+		def := Stores("http2.ClientConn.maxConcurrentStreams").StoredIs("1000")
+		if k, ok := c.P.ConstInt("http2.defaultMaxConcurrentStreams"); ok {
+			def = Stores("http2.ClientConn.maxConcurrentStreams").StoredIs(fmt.Sprint(k))
+		}
+		c.Guard(fn, def, "!$r.cc.seenSettings")
+	})
+
+	// C27-2 (send size computed once per pass): every datagram's size limit is computed from the
+	// anti-amplification allowance as it stands when that datagram is built.
+	ExtraClause("C27", "Also: loss.maxSendSize() is re-evaluated for every datagram of maybeSend's loop (no iteration reuses a stale allowance).")
+	RegisterExtra("C27", func(c *Ctx) {
+		fn := "(*quic.Conn).maybeSend"
+		c.Via(fn, Calls("(*quic.Endpoint).sendDatagram"), Calls("(*quic.packetWriter).reset"), Calls("(*quic.lossState).maxSendSize"))
+		c.ArgFrom(fn, Calls("(*quic.packetWriter).reset"), 1, "loss.maxSendSize()", IsCallTo("(*quic.lossState).maxSendSize"))
+	})
+
+	// C29-2 (hand-written unlock with a condition that forgets "or closed"): the queue's gate is released only
+	// through queue.unlock, which recomputes the condition (err != nil || len(q) > 0).
+	ExtraClause("C29", "Also: inside the queue methods the gate is released only through queue.unlock (the one place that computes the set/unset condition).")
+	RegisterExtra("C29", func(c *Ctx) {
+		bad := ""
+		n := 0
+		for _, fn := range c.P.All {
+			name := FnName(Outer(fn))
+			if !strings.HasPrefix(name, "(*quic.queue[T]).") || name == "(*quic.queue[T]).unlock" {
+				continue
+			}
+			for _, b := range fn.Blocks {
+				for _, in := range b.Instrs {
+					if ci, ok := in.(ssa.CallInstruction); ok {
+						n++
+						if CalleeName(ci.Common()) == "(*quic.gate).unlock" || CalleeName(ci.Common()) == "(*quic.gate).unlockFunc" {
+							bad = name + " releases the gate directly at " + c.P.Pos(InstrPos(in))
+						}
+					}
+				}
+			}
+		}
+		if n == 0 {
+			c.Undecided("single-release-point", "quic.queue: gate released only via queue.unlock", "no queue method found")
+			return
+		}
+		c.Check(bad == "", "single-release-point", "quic.queue: gate released only via queue.unlock", token.NoPos, "", bad)
+	})
+}
